@@ -39,6 +39,12 @@ def run(run):
                 with guard(run, what, [pc.line, r]):
                     if what.startswith('concept'):
                         out = list(getattr(cs[s[0]], kind)())
+                    elif len(s) % 3 == 2:
+                        # the collection is read when the method is called: later edits of the caller's list do not matter
+                        buf = [cs[a] for a in s]
+                        it = getattr(L, kind + '_union')(buf)
+                        buf.clear()
+                        out = list(it)
                     else:
                         out = list(getattr(L, kind + '_union')(iter([cs[a] for a in s])))
                     ranks = [c.index if kind == 'upset' else c.dindex for c in out]
